@@ -375,11 +375,16 @@ type c13Nest struct {
 	M map[string][]uint64 `config:"m"`
 }
 
+type c13InlNest struct {
+	IL []uint64 `config:"il"`
+}
+
 type c13MergeTag struct {
-	Merged c13Nest  `config:"merged,merge"`
-	Direct []uint64 `config:"direct,merge"`
-	Plain  c13Nest  `config:"plain"`
-	App    c13Nest  `config:"app,append"`
+	Inl    c13InlNest `config:",inline,append"`
+	Merged c13Nest    `config:"merged,merge"`
+	Direct []uint64   `config:"direct,merge"`
+	Plain  c13Nest    `config:"plain"`
+	App    c13Nest    `config:"app,append"`
 }
 
 // H_C13_merge_tag: a field tagged merge (replace / append analogously) fixes the list policy for the
@@ -390,9 +395,9 @@ func H_C13_merge_tag() {
 	mk := func() c13Nest {
 		return c13Nest{L: []uint64{p[0], p[1], p[2]}, M: map[string][]uint64{"k": {p[0], p[1]}}}
 	}
-	t := c13MergeTag{Merged: mk(), Direct: []uint64{p[0], p[1]}, Plain: mk(), App: mk()}
+	t := c13MergeTag{Merged: mk(), Direct: []uint64{p[0], p[1]}, Plain: mk(), App: mk(), Inl: c13InlNest{IL: []uint64{p[0], p[1]}}}
 	nest := map[string]interface{}{"l": []interface{}{n}, "m": map[string]interface{}{"k": []interface{}{n}}}
-	c, err := ucfg.NewFrom(map[string]interface{}{"merged": nest, "direct": []interface{}{n}, "plain": nest, "app": nest})
+	c, err := ucfg.NewFrom(map[string]interface{}{"merged": nest, "direct": []interface{}{n}, "plain": nest, "app": nest, "il": []interface{}{n}})
 	verif.Assume(err == nil)
 	pol := verif.Choice("policy", nPolicies)
 	err = c.Unpack(&t, polOpts(pol)...)
@@ -427,4 +432,5 @@ func H_C13_merge_tag() {
 	verif.Assert(eq(t.Direct, n, p[1]), "C13/merge tag: the tagged list itself is merged by index/"+polName[pol])
 	verif.Assert(eq(t.Plain.L, byPol([]uint64{p[0], p[1], p[2]})...), "C13/merge tag: an untagged sibling follows the global policy/"+polName[pol])
 	verif.Assert(eq(t.App.L, p[0], p[1], p[2], n), "C13/merge tag: list nested below an append-tagged field is appended/"+polName[pol])
+	verif.Assert(eq(t.Inl.IL, p[0], p[1], n), "C13/merge tag: list of an inline struct tagged append is appended/"+polName[pol])
 }
